@@ -79,6 +79,7 @@ def _jsonable_result(ret):
 def _run_lib(plan, world, extra):
     from yalafi import tex2txt
     results = extra['lib'] = []
+    shared = {}
     for op in plan['ops']:
         if op.get('files'):
             # the files an operation finds (rewritten between two calls)
@@ -88,7 +89,24 @@ def _run_lib(plan, world, extra):
         o = op.get('opts', {})
         rec = {}
         try:
-            opts = tex2txt.Options(**{k: v for k, v in o.items()})
+            # directives (keys with '_'): '_repl_file' / '_defs_file' = the
+            # option value is obtained with the library's own reader;
+            # '_share' = a caller that builds its Options object once and
+            # passes it to every call with these very options
+            key = json.dumps(o, sort_keys=True)
+            if o.get('_share') and key in shared:
+                opts = shared[key]
+                world.fire('options_object_reused')
+            else:
+                kwargs = {k: v for k, v in o.items() if not k.startswith('_')}
+                enc = kwargs.get('ienc', 'utf-8')
+                if o.get('_repl_file'):
+                    kwargs['repl'] = tex2txt.read_replacements(o['_repl_file'], enc)
+                if o.get('_defs_file'):
+                    kwargs['defs'] = tex2txt.read_definitions(o['_defs_file'], enc)
+                opts = tex2txt.Options(**kwargs)
+                if o.get('_share'):
+                    shared[key] = opts
             mod = None
             if op.get('mod'):
                 def mod(parms, _m=op['mod']):
@@ -242,9 +260,11 @@ def _child(plan, fd_in, fd_out, fd_err, fd_res):
         tb = traceback.extract_tb(e.__traceback__)
         simdir = os.path.dirname(os.path.abspath(__file__))
         if (tb and os.path.abspath(tb[-1].filename).startswith(simdir)
-                and not isinstance(e, OSError)):
+                and not isinstance(e, OSError)
+                and not getattr(e, 'sim_injected', False)):
             # a bug of the simulator itself, not behaviour of YaLafi
-            # (simulated faults are OSError / URLError and are raised on purpose)
+            # (simulated faults are OSError / URLError or carry the attribute
+            # sim_injected, and are raised on purpose)
             status = 'harness:sim-exception:' + traceback.format_exc()
         else:
             # what the interpreter would do with an unhandled exception
